@@ -211,7 +211,7 @@ def spans_of(err):
 
 def errors_part(chk, tier, seed, stdlib):
     progs, skipped = build_programs(tier, seed)
-    chk.extra["ui_fail_programs_skipped_for_arguments"] = skipped
+    chk.extra["ui_fail_programs_skipped"] = skipped
     cases = [p.case() for p in progs]
     results = run_cases(cases, "c16_errors", timeout_ms=20000)
     failing = []
